@@ -3,18 +3,19 @@ NEXT Next
 CONSTANTS
   Slice = "cost"
   AcSet = {TRUE, FALSE}
-  OptSet = {"default", "tight"}
+  OptSet = {"tight"}
   MeshSet = {FALSE}
   DclSet = {0, 1, 2}
   EgcSet = {TRUE}
   VbandSet = {"wide"}
   PlimSet = {"loose", "tight"}
   QlimSet = {"loose"}
-  RateSet = {"loose", "tight"}
-  VarSet = {1, 2}
+  RateSet = {"loose"}
+  VarSet = {1}
   CtrlSets = {}
   Profiles = {}
   MaxCosted = 2
+  GridModelMax = 150
 INVARIANT ObjectiveConvention
 INVARIANT PwlWellFormed
 INVARIANT CostInRange
